@@ -56,9 +56,10 @@ def generate(seed, tier="quick"):
             ops.append(op)
     if shape["kind"] == "network" and o.random() < 0.6:
         # wiring burst: several synapses of 2-3 interleaved types (rank within type != global edge index)
-        types_ = o.sample(mech.SYNAPSES, o.randint(2, 3))
+        types_ = [(c_, None if o.random() < 0.6 else c_[:3].lower() + "_syn") for c_ in o.sample(mech.SYNAPSES, o.randint(2, 3))]  # some names carry an underscore
         for _ in range(o.randint(3, 6)):
-            op = {"op": "connect", "pre": o.randrange(1 << 16), "post": o.randrange(1 << 16), "cls": o.choice(types_), "name": None}
+            c_, n_ = o.choice(types_)
+            op = {"op": "connect", "pre": o.randrange(1 << 16), "post": o.randrange(1 << 16), "cls": c_, "name": n_}
             if dw.dry_apply(op) == "accept":
                 ops.append(op)
     if not dw.ref.recordings:
